@@ -17,7 +17,7 @@ func genUniqueProgram(r *lib.Rng) string {
 	g := newScopeGen(r)
 	n := 0
 	// "in", "do", "or": names that begin with a reserved word (index, done, order …): the typed prefix is a keyword
-	prefixes := []string{"ab", "ac", "ba", "abc", "x", "in", "do", "or"}
+	prefixes := []string{"ab", "ac", "ba", "abc", "x", "in", "do", "or", "then"}
 	g.fresh = func() string {
 		n++
 		return fmt.Sprintf("%s%d", prefixes[r.Intn(len(prefixes))], n)
@@ -105,7 +105,7 @@ func runC14(res *lib.Result, tier string, seed int64, args []string) error {
 					indent = pi + "  "
 				}
 			}
-			prefix := []string{"a", "ab", "ac", "b", "x", "abc", "in", "do", "or"}[r.Intn(9)]
+			prefix := []string{"a", "ab", "ac", "b", "x", "abc", "in", "do", "or", "then"}[r.Intn(10)]
 			if nonUnique {
 				prefix = []string{"a", "b", "c", "x", "y", "v"}[r.Intn(6)]
 			}
